@@ -230,6 +230,9 @@ def xml_nil(sx, p):
     return sx.And(nil, not nillable, is_client_validation_fault(out.fault))
 
 
+from spyne.model.primitive import Time as _Time0
+
+
 class PosInnerN(ComplexModel):
     __namespace__ = 'tns'
     v = Integer
@@ -241,7 +244,8 @@ NULL_GRID = [('Integer', Integer, True), ('Mandatory.Integer', M.Integer, False)
              ('Integer(values=[1,2])', Integer(values=[1, 2]), True),
              ("Unicode(values=['a'],nillable=False)", Unicode(values=['a'], nillable=False), False),
              ('Integer(ge=1,le=9)', Integer(ge=1, le=9), True), ("Unicode(pattern='a+',min_len=1)", Unicode(pattern='a+', min_len=1), True),
-             ('complex', PosInnerN, True), ('complex(nillable=False)', PosInnerN.customize(nillable=False), False)]
+             ('complex', PosInnerN, True), ('complex(nillable=False)', PosInnerN.customize(nillable=False), False),
+             ('Date', Date, True), ('DateTime', DateTime, True), ('Time', _Time0, True), ('Date(nillable=False)', Date(nillable=False), False)]
 NULL_HOLDERS = {}
 
 
